@@ -33,8 +33,8 @@ CLAIMS = {
          "Seeded exploration over (termination cause: remote DISC / local terminate / disruption / IOError once or persistent) x (break point in link exchanges) x (1-4 application threads per side in send/recv/recvfrom/accept/connect/resolve/poll/close, SNEP and handover clients) x pre-emption policy (synchronisation points, source lines, stalls): when the scheduler has nothing left to run, any thread still blocked is reported with the primitive and nfcpy frame; afterwards every thread issues one more call of each kind on old and new sockets.",
          "bounded time = 60 simulated seconds; SystemExit/IOError leaving llc.run() on a failing device is the repository's behaviour and not counted; connect() return through the real frontend is covered by the W3 checks"),
  "C13": ("fault_enumeration", "8.C13", "deterministic simulation: real drivers over simulated chip firmware + host link; every chip status code and host-link fault at every host command of one exchange()",
-         "For each of 85 (driver, target kind) pairs (pn531, pn532, pn533, rcs956, rcs380, acr122, arygon A/B; Type 1/2/3/4A/4B, DEP 106A/212F/424F, listen modes) one fault-free exchange() counts the host commands, then one run per (host command index x host-link fault kind) and per chip status code of the RF exchange command: exchange() must return data (None only as target) or raise an nfc.clf.CommunicationError subclass or IOError; spot checks of the documented mapping on unambiguous codes.",
-         "chip firmware models are written from the data sheets for the command subset the drivers use; udp driver is exercised by the W3 checks, not here; status sample in quick tier, all 256 codes / all status-bit sets in thorough"),
+         "For each of 85 (driver, target kind) pairs (pn531, pn532, pn533, rcs956, rcs380, acr122, arygon A/B, plus udp in its own phase; Type 1/2/3/4A/4B, DEP 106A/212F/424F, listen modes) one fault-free exchange() counts the host commands, then one run per (host command index x host-link fault kind) and per chip status code of the RF exchange command: exchange() must return data (None only as target) or raise an nfc.clf.CommunicationError subclass or IOError; spot checks of the documented mapping on unambiguous codes.",
+         "chip firmware models are written from the data sheets for the command subset the drivers use; the udp driver has its own phase (its host link is the UDP socket: garbled / lost / foreign answer datagrams and failing socket calls on the simulated network); status sample in quick tier, all 256 codes / all status-bit sets in thorough"),
  "C14": ("exploration", "8.C14", "deterministic simulation of the host link: frames written by the real drivers and mutated response frames delivered to them, judged by independent frame validators and reference CRCs",
          "(a) every frame the drivers write (fault-free runs plus a sweep over command codes x payload lengths on both sides of the 254/255 format switch) is parsed by independent validators (PN53x normal/extended, ACK, arygon prefix, CCID + pseudo APDU, RC-S380); (b) every single-bit flip, truncation, extension and seeded substitution of valid responses is delivered by the simulated link: data returned implies valid under the validator and equal payload, else IOError; (c) CRC_A/CRC_B on the driver paths against bitwise references.",
          "the pure-function sub-claim (CRC functions equal the ISO definition for all short messages) is covered only as far as messages flow through the simulated driver paths (DESIGN section 9)"),
